@@ -39,7 +39,8 @@ theorem addOp_ok_covers {acl : Acl} {U : List Entry} (hM : ClockMono U) {s : Sto
   obtain ⟨_, h2, _, h4⟩ := hw hcan
   simp only [hcan, if_true, Option.getD_some]
   exact (append_covers hM acl.canAppend s.log mk hG h2 h4 hcan).mono_heads
-    (fun x hx => List.mem_append_left _ hx)
+    (fun x hx => List.mem_append_left _ (by
+      rcases List.mem_singleton.mp hx with rfl; exact List.mem_cons_self))
 
 /-! ### The pinned tree: an aborted `replicationLoadComplete` left a merged entry uncovered -/
 
